@@ -496,4 +496,34 @@ def r19_11(ctx):
     ctx.floor(n, 4, "stream save / install statements in _enable_redirect_io")
 
 
-RULES = [r19_1, r19_2, r19_3, r19_4, r19_5, r19_6, r19_8, r19_9, r19_10, r19_11]
+def r19_12(ctx):
+    ctx.rule("R19.12", "one decoder per redirected stream, for its whole life: the AnsiDecoder of a FileProxy carries the style and link opened by earlier writes; the attribute holding it is stored in __init__ only - replacing it (for instance after a flush) forgets an escape sequence that is still in force, and the rest of the line is printed unstyled")
+    c = ctx.repo.cls("file_proxy:FileProxy")
+    init = c.method("__init__")
+    if init is None:
+        raise AnchorVanished("FileProxy.__init__ not found")
+    slots = set()
+    for x in walk_local(init.node):
+        if isinstance(x, (ast.Assign, ast.AnnAssign)):
+            t = x.targets[0] if isinstance(x, ast.Assign) else x.target
+            v = x.value
+            if is_attr_of(t, "self") and isinstance(v, ast.Call) and norm(v.func).endswith("AnsiDecoder"):
+                slots.add(t.attr)
+    if not slots:
+        raise AnalysisError("FileProxy.__init__: no attribute initialised with AnsiDecoder()")
+    n = 0
+    for name, lst in c.methods.items():
+        if name == "__init__":
+            continue
+        for f in lst:
+            for x in walk_local(f.node):
+                tg = x.targets if isinstance(x, ast.Assign) else ([x.target] if isinstance(x, (ast.AugAssign, ast.AnnAssign)) else [])
+                for t in tg:
+                    if is_attr_of(t, "self") and t.attr in slots:
+                        n += 1
+                        ctx.violation(f.fq, short(x), f"{f.module.relpath}:{x.lineno}", f"`{short(x)}` replaces the stream's decoder outside __init__: write('\\x1b[31mred'); flush(); write(' line\\x1b[0m\\n') prints ' line' without the red that is still open")
+    if not n:
+        ctx.ok(init.where, f"decoder slot(s) {sorted(slots)} stored only in __init__", init.fq)
+
+
+RULES = [r19_1, r19_2, r19_3, r19_4, r19_5, r19_6, r19_8, r19_9, r19_10, r19_11, r19_12]
